@@ -1905,7 +1905,7 @@ struct Eval {
 
 struct CRef<'a> {
     font: &'a CFont,
-    dec: Vec<Vec<Decoded>>, // per glyph, read back from the compiled gvar
+    dec: &'a [Vec<Decoded>], // per glyph, read back from the compiled gvar
     loc: &'a [i16],
 }
 
@@ -2002,7 +2002,7 @@ impl CRef<'_> {
     }
 }
 
-fn check_cfont(run: &Run, f: &CFont, draw: &[u32], locs: &[Vec<i16>], l: &mut Local) {
+fn check_cfont(run: &Run, f: &CFont, draw: &[u32], locs: &[Vec<i16>], reuse: bool, l: &mut Local) {
     let bytes = match guard(|| build_cfont(f)) {
         Ok(Ok(b)) => b,
         Ok(Err(e)) => {
@@ -2042,117 +2042,174 @@ fn check_cfont(run: &Run, f: &CFont, draw: &[u32], locs: &[Vec<i16>], l: &mut Lo
         }
     };
     let outlines = font.outline_glyphs();
-    for &gid in draw {
+    let n = f.glyphs.len() as u32;
+    let mut ogs = vec![];
+    for gid in 0..n {
         let Some(og) = outlines.get(GlyphId::new(gid)) else {
-            run.violation("c2: no outline for a composite glyph", "", cfont_json(f, gid, &[], "parse"));
+            run.violation("c2: no outline for a glyph", "", cfont_json(f, gid, &[], "parse"));
             return;
         };
-        for loc in locs {
+        ogs.push(og);
+    }
+    let mem_size = ogs.iter().map(|og| og.draw_memory_size(skrifa::outline::Hinting::None)).max().unwrap_or(0);
+    for loc in locs {
+        let coords: Vec<F2Dot14> = loc.iter().map(|b| F2Dot14::from_bits(*b)).collect();
+        let reference = CRef { font: f, dec: &dec, loc };
+        // fresh scaler memory for every draw
+        for &gid in draw {
             l.evals += 1;
             l.trans += 2;
-            let coords: Vec<F2Dot14> = loc.iter().map(|b| F2Dot14::from_bits(*b)).collect();
-            let reference = CRef { font: f, dec: std::mem::take(&mut dec), loc };
             let ev = reference.eval(gid as usize);
-            dec = reference.dec;
-            for (style_name, style) in [
-                ("freetype", skrifa::outline::pen::PathStyle::FreeType),
-                ("harfbuzz", skrifa::outline::pen::PathStyle::HarfBuzz),
-            ] {
-                let mut pen = PtsPen::default();
-                let settings = DrawSettings::unhinted(Size::unscaled(), LocationRef::new(&coords)).with_path_style(style);
-                match guard(|| og.draw(settings, &mut pen)) {
-                    Ok(Ok(_)) => {}
-                    Ok(Err(e)) => {
-                        run.violation(&format!("c2: draw of a variable composite fails ({style_name})"), &format!("{e}"), cfont_json(f, gid, loc, style_name));
-                        continue;
-                    }
-                    Err(p) => {
-                        run.violation(&format!("c2: draw panic: {} in {}", p.kind(), p.site()), &p.message, cfont_json(f, gid, loc, style_name));
-                        continue;
-                    }
-                }
-                if pen.1 || pen.0.len() != ev.iv.len() {
-                    run.violation(
-                        &format!("c2: drawn composite has the wrong structure ({style_name})"),
-                        &format!("{} points drawn, {} expected", pen.0.len(), ev.iv.len()),
-                        cfont_json(f, gid, loc, style_name),
-                    );
-                    continue;
-                }
-                let mut bad: Option<String> = None;
-                if style_name == "freetype" {
-                    for (i, (got, want)) in pen.0.iter().zip(ev.iv.iter()).enumerate() {
-                        let xi = Iv { lo: want.0.lo - ev.pp1.0.hi, hi: want.0.hi - ev.pp1.0.lo };
-                        let okx = got.0.fract() == 0.0 && (xi.lo..=xi.hi).contains(&(got.0 as i128));
-                        let oky = got.1.fract() == 0.0 && (want.1.lo..=want.1.hi).contains(&(got.1 as i128));
-                        if xi.lo != xi.hi || want.1.lo != want.1.hi {
-                            l.halfway += 1;
-                        }
-                        if !(okx && oky) && bad.is_none() {
-                            bad = Some(format!(
-                                "point {i}: drawn {:?}, accepted x {}..={} y {}..={} (exact {}, {}; origin {})",
-                                got, xi.lo, xi.hi, want.1.lo, want.1.hi, ev.exact[i].0.to_f64(), ev.exact[i].1.to_f64(), ev.pp1.1.to_f64()
-                            ));
-                        }
-                    }
-                } else {
-                    // no rounding step; the origin may or may not be the varied phantom point 1
-                    let slack = |v: f64| 4.0 * ev.eps.to_f64() + 0.05 + v.abs() * 1e-5;
-                    let mut ok_any = false;
-                    let mut first_bad = String::new();
-                    for origin in [0.0, ev.pp1.1.to_f64()] {
-                        let mut ok = true;
-                        for (i, (got, want)) in pen.0.iter().zip(ev.exact.iter()).enumerate() {
-                            let (wx, wy) = (want.0.to_f64() - origin, want.1.to_f64());
-                            if (got.0 as f64 - wx).abs() > slack(wx) || (got.1 as f64 - wy).abs() > slack(wy) {
-                                ok = false;
-                                if first_bad.is_empty() {
-                                    first_bad = format!("point {i}: drawn {:?}, exact ({wx}, {wy}) with origin {origin}", got);
-                                }
-                                break;
-                            }
-                        }
-                        if ok {
-                            ok_any = true;
-                            if origin == 0.0 && ev.pp1.1.n != 0 {
-                                l.hb_unshifted += 1;
-                            }
-                            break;
-                        }
-                    }
-                    if !ok_any {
-                        bad = Some(first_bad);
-                    }
-                }
-                if let Some(detail) = bad {
-                    let VGlyph::Composite { comps, .. } = &f.glyphs[gid as usize] else { unreachable!() };
-                    let xf = comps.iter().any(|c| c.xf != IDENTITY);
-                    let mm = comps.iter().any(|c| c.use_my_metrics);
-                    let nested = comps.iter().any(|c| matches!(f.glyphs[c.gid as usize], VGlyph::Composite { .. }));
-                    run.violation(
-                        &format!(
-                            "drawn variable composite differs from components + Σ scalar·delta ({style_name}; {}{}{}{} active tuple(s))",
-                            if nested { "nested; " } else { "" },
-                            if xf { "transformed component; " } else { "" },
-                            if mm { "USE_MY_METRICS; " } else { "" },
-                            ev.active
-                        ),
-                        &format!("location {loc:?}: {detail}"),
-                        cfont_json(f, gid, loc, style_name),
-                    );
-                }
-                let mut h = Fnv::new();
-                h.str("c2");
-                h.str(style_name);
-                for p in &pen.0 {
-                    h.u64(p.0.to_bits() as u64);
-                    h.u64(p.1.to_bits() as u64);
-                }
-                l.all.insert(h.finish());
-                if ev.active > 0 {
-                    l.nontrivial.insert(h.finish());
+            draw_check(run, f, &ogs[gid as usize], gid, loc, &coords, &ev, None, "", l);
+        }
+        // one caller-provided buffer reused for every glyph of the font, in both orders: what a glyph
+        // draws as must not depend on what was drawn before it
+        if reuse {
+            let evs: Vec<Eval> = (0..n).map(|g| reference.eval(g as usize)).collect();
+            let mut buf = vec![0u8; mem_size + 64];
+            let forward: Vec<u32> = (0..n).collect();
+            let backward: Vec<u32> = (0..n).rev().collect();
+            for order in [forward, backward] {
+                for &gid in &order {
+                    l.evals += 1;
+                    l.trans += 2;
+                    draw_check(run, f, &ogs[gid as usize], gid, loc, &coords, &evs[gid as usize], Some(&mut buf), "; reused buffer", l);
                 }
             }
+        }
+    }
+}
+
+fn glyph_is_static(g: &VGlyph) -> bool {
+    match g {
+        VGlyph::Simple(s) => s.tuples.is_empty(),
+        VGlyph::Composite { tuples, .. } => tuples.is_empty(),
+    }
+}
+
+/// draw glyph `gid` in both path styles (optionally into a caller-provided, reused buffer) and compare
+#[allow(clippy::too_many_arguments)]
+fn draw_check(
+    run: &Run,
+    f: &CFont,
+    og: &skrifa::outline::OutlineGlyph,
+    gid: u32,
+    loc: &[i16],
+    coords: &[F2Dot14],
+    ev: &Eval,
+    mut mem: Option<&mut Vec<u8>>,
+    label: &str,
+    l: &mut Local,
+) {
+    for (style_name, style) in [
+        ("freetype", skrifa::outline::pen::PathStyle::FreeType),
+        ("harfbuzz", skrifa::outline::pen::PathStyle::HarfBuzz),
+    ] {
+        let mut pen = PtsPen::default();
+        let settings = DrawSettings::unhinted(Size::unscaled(), LocationRef::new(coords)).with_path_style(style);
+        let settings = match mem.as_mut() {
+            Some(m) => settings.with_memory(Some(&mut m[..])),
+            None => settings,
+        };
+        match guard(|| og.draw(settings, &mut pen)) {
+            Ok(Ok(_)) => {}
+            Ok(Err(e)) => {
+                run.violation(&format!("c2: draw of a variable glyph fails ({style_name}{label})"), &format!("{e}"), cfont_json(f, gid, loc, style_name));
+                continue;
+            }
+            Err(p) => {
+                run.violation(&format!("c2: draw panic: {} in {}", p.kind(), p.site()), &p.message, cfont_json(f, gid, loc, style_name));
+                continue;
+            }
+        }
+        if pen.1 || pen.0.len() != ev.iv.len() {
+            run.violation(
+                &format!("c2: drawn glyph has the wrong structure ({style_name}{label})"),
+                &format!("{} points drawn, {} expected", pen.0.len(), ev.iv.len()),
+                cfont_json(f, gid, loc, style_name),
+            );
+            continue;
+        }
+        let mut bad: Option<String> = None;
+        if style_name == "freetype" {
+            for (i, (got, want)) in pen.0.iter().zip(ev.iv.iter()).enumerate() {
+                let xi = Iv { lo: want.0.lo - ev.pp1.0.hi, hi: want.0.hi - ev.pp1.0.lo };
+                let okx = got.0.fract() == 0.0 && (xi.lo..=xi.hi).contains(&(got.0 as i128));
+                let oky = got.1.fract() == 0.0 && (want.1.lo..=want.1.hi).contains(&(got.1 as i128));
+                if xi.lo != xi.hi || want.1.lo != want.1.hi {
+                    l.halfway += 1;
+                }
+                if !(okx && oky) && bad.is_none() {
+                    bad = Some(format!(
+                        "point {i}: drawn {:?}, accepted x {}..={} y {}..={} (exact {}, {}; origin {})",
+                        got, xi.lo, xi.hi, want.1.lo, want.1.hi, ev.exact[i].0.to_f64(), ev.exact[i].1.to_f64(), ev.pp1.1.to_f64()
+                    ));
+                }
+            }
+        } else {
+            // no rounding step; the origin may or may not be the varied phantom point 1
+            let slack = |v: f64| 4.0 * ev.eps.to_f64() + 0.05 + v.abs() * 1e-5;
+            let mut ok_any = false;
+            let mut first_bad = String::new();
+            for origin in [0.0, ev.pp1.1.to_f64()] {
+                let mut ok = true;
+                for (i, (got, want)) in pen.0.iter().zip(ev.exact.iter()).enumerate() {
+                    let (wx, wy) = (want.0.to_f64() - origin, want.1.to_f64());
+                    if (got.0 as f64 - wx).abs() > slack(wx) || (got.1 as f64 - wy).abs() > slack(wy) {
+                        ok = false;
+                        if first_bad.is_empty() {
+                            first_bad = format!("point {i}: drawn {:?}, exact ({wx}, {wy}) with origin {origin}", got);
+                        }
+                        break;
+                    }
+                }
+                if ok {
+                    ok_any = true;
+                    if origin == 0.0 && ev.pp1.1.n != 0 {
+                        l.hb_unshifted += 1;
+                    }
+                    break;
+                }
+            }
+            if !ok_any {
+                bad = Some(first_bad);
+            }
+        }
+        if let Some(detail) = bad {
+            let (kind, xf, mm, nested, has_static) = match &f.glyphs[gid as usize] {
+                VGlyph::Composite { comps, .. } => (
+                    "composite",
+                    comps.iter().any(|c| c.xf != IDENTITY),
+                    comps.iter().any(|c| c.use_my_metrics),
+                    comps.iter().any(|c| matches!(f.glyphs[c.gid as usize], VGlyph::Composite { .. })),
+                    comps.iter().any(|c| glyph_is_static(&f.glyphs[c.gid as usize])),
+                ),
+                VGlyph::Simple(_) => ("simple glyph", false, false, false, false),
+            };
+            let own_static = glyph_is_static(&f.glyphs[gid as usize]);
+            run.violation(
+                &format!(
+                    "drawn variable {kind} differs from components + Σ scalar·delta ({style_name}{label}{}{}{}{}{})",
+                    if own_static { "; glyph without variation data" } else { "" },
+                    if has_static { "; component without variation data" } else { "" },
+                    if nested { "; nested" } else { "" },
+                    if xf { "; transformed component" } else { "" },
+                    if mm { "; USE_MY_METRICS" } else { "" },
+                ),
+                &format!("location {loc:?} ({} active tuples): {detail}", ev.active),
+                cfont_json(f, gid, loc, style_name),
+            );
+        }
+        let mut h = Fnv::new();
+        h.str("c2");
+        h.str(style_name);
+        for p in &pen.0 {
+            h.u64(p.0.to_bits() as u64);
+            h.u64(p.1.to_bits() as u64);
+        }
+        l.all.insert(h.finish());
+        if ev.active > 0 {
+            l.nontrivial.insert(h.finish());
         }
     }
 }
@@ -2231,9 +2288,54 @@ fn composite_family(run: &Run) {
         }
     }
     run.count("c2.fonts", fonts.len() as u64);
-    let locals: Vec<Local> = fonts
+    // fonts in which some glyphs have no variation data at all, in every combination:
+    // 0 triangle, 1 square, 2 second triangle, 3 = composite(0, 1, 2), 4 = composite(3, 1);
+    // bit g of `mask` = glyph g is varied. Every glyph is drawn with fresh memory and through one reused
+    // caller buffer in both glyph orders.
+    let n_plain = fonts.len();
+    {
+        let tents = tents_for(1);
+        let tri2: Vec<(i64, i64)> = vec![(0, 0), (90, 20), (30, 80)];
+        for mask in 0u32..32 {
+            for (r_simple, r_comp) in [(0usize, 0usize), (1, 0)] {
+                let varied = |g: u32| mask >> g & 1 == 1;
+                let stuple = |n: usize, k: i16| TupleSpec {
+                    region: tents[r_simple].clone(),
+                    deltas: (0..n + 4)
+                        .map(|i| if i < n { (k * (2 * i as i16 + 1) - 7, 5 - k * i as i16, true) } else if i == n { (3 * k, 0, true) } else if i == n + 1 { (-k, 0, true) } else { (0, 0, true) })
+                        .collect(),
+                };
+                let ctuple = |nc: usize, k: i16| TupleSpec {
+                    region: tents[r_comp].clone(),
+                    deltas: (0..nc + 4).map(|i| if i < nc { (11 * k + 4 * i as i16, -3 * k - i as i16, true) } else if i == nc { (5 * k, 0, true) } else { (0, 0, true) }).collect(),
+                };
+                let simple = |coords: &Vec<(i64, i64)>, g: u32, k: i16| {
+                    VGlyph::Simple(GlyphSpec {
+                        coords: coords.clone(),
+                        ends: vec![coords.len() - 1],
+                        tol2: 0,
+                        tuples: if varied(g) { vec![stuple(coords.len(), k)] } else { vec![] },
+                    })
+                };
+                let plain = |gid: u16, ox: i16, oy: i16| CompSpec { gid, ox, oy, xf: IDENTITY, use_my_metrics: false, round_xy: false, unscaled_offset: false };
+                let g3 = VGlyph::Composite {
+                    comps: vec![plain(0, 20, -10), plain(1, 300, 50), plain(2, 500, 5)],
+                    tuples: if varied(3) { vec![ctuple(3, 3)] } else { vec![] },
+                };
+                let g4 = VGlyph::Composite {
+                    comps: vec![plain(3, 5, 5), CompSpec { xf: [0x2000, 0, 0, 0x2000], ..plain(1, 700, 0) }],
+                    tuples: if varied(4) { vec![ctuple(2, -5)] } else { vec![] },
+                };
+                fonts.push(CFont { glyphs: vec![simple(&tri, 0, 5), simple(&sq, 1, -3), simple(&tri2, 2, 7), g3, g4], axis_count: 1 });
+            }
+        }
+    }
+    run.count("c2.fonts_with_static_glyphs", (fonts.len() - n_plain) as u64);
+    run.bound("c2.static_mix", json!("5 glyphs (3 simple, composite of the 3, nested composite), every subset of glyphs without variation data, 2 region assignments; each glyph drawn fresh and through one reused buffer forwards and backwards"));
+    let fonts_indexed: Vec<(usize, &CFont)> = fonts.iter().enumerate().collect();
+    let locals: Vec<Local> = fonts_indexed
         .par_iter()
-        .map(|f| {
+        .map(|&(fi, f)| {
             let mut l = Local::new();
             let mut regions: Vec<Region> = vec![];
             for g in &f.glyphs {
@@ -2256,7 +2358,11 @@ fn composite_family(run: &Run) {
                 }
                 locs = next;
             }
-            check_cfont(run, f, &[2, 3], &locs, &mut l);
+            if fi < n_plain {
+                check_cfont(run, f, &[2, 3], &locs, false, &mut l);
+            } else {
+                check_cfont(run, f, &[0, 1, 2, 3, 4], &locs, true, &mut l);
+            }
             l
         })
         .collect();
@@ -2302,7 +2408,7 @@ fn body(run: &Run, replay: Option<&Value>) {
                 let f = cfont_from_json(case);
                 let loc: Vec<i16> = case["location"].as_array().unwrap().iter().map(|x| x.as_i64().unwrap() as i16).collect();
                 let gid = case["draw_glyph"].as_u64().unwrap_or(2) as u32;
-                check_cfont(run, &f, &[gid.max(2)], &[loc], &mut l);
+                check_cfont(run, &f, &[gid], &[loc], true, &mut l);
             }
             Some("draw") => {
                 let f = FontSpec {
